@@ -219,8 +219,16 @@ fn const_j<'tcx>(tcx: TyCtxt<'tcx>, owner: DefId, c: &mir::ConstOperand<'tcx>) -
 
 fn operand_j<'tcx>(tcx: TyCtxt<'tcx>, owner: DefId, body: &Body<'tcx>, o: &Operand<'tcx>) -> J {
     match o {
-        Operand::Copy(p) => J::obj(vec![("k", J::s("copy".into())), ("pl", place_j(tcx, body, p))]),
-        Operand::Move(p) => J::obj(vec![("k", J::s("move".into())), ("pl", place_j(tcx, body, p))]),
+        Operand::Copy(p) => J::obj(vec![
+            ("k", J::s("copy".into())),
+            ("pl", place_j(tcx, body, p)),
+            ("pty", J::s(format!("{}", p.ty(&body.local_decls, tcx).ty))),
+        ]),
+        Operand::Move(p) => J::obj(vec![
+            ("k", J::s("move".into())),
+            ("pl", place_j(tcx, body, p)),
+            ("pty", J::s(format!("{}", p.ty(&body.local_decls, tcx).ty))),
+        ]),
         Operand::Constant(c) => const_j(tcx, owner, c),
         #[allow(unreachable_patterns)]
         _ => J::obj(vec![("k", J::s("other".into())), ("text", J::s(format!("{:?}", o)))]),
